@@ -67,8 +67,8 @@ def rule_no_reflection(ctx, rep, rid: str) -> None:
                 rep.bad(rid, full, f"{f.qual}: {why}: a script-chosen string could reach host internals", f"{f.module.rel}:{line}")
         rep.ok(rid, f"{f.qual}:scanned")
     rep.analysed["literal_reflective_calls"] = n_refl
-    if n_refl < 30:
-        raise AnalysisError(f"only {n_refl} getattr/hasattr calls classified (floor 30)")
+    if n_refl < 20:
+        raise AnalysisError(f"only {n_refl} getattr/hasattr calls classified (floor 20)")
 
 
 def _own_reflection(f: Func) -> List[Tuple[str, int, str]]:
@@ -1020,6 +1020,10 @@ def rule_optional_groups_normalised(ctx, rep, rid: str, floor: int = 4) -> None:
             return True
         if isinstance(p, ast.IfExp) and p.test is n:
             return True
+        if isinstance(p, ast.IfExp) and isinstance(p.test, ast.Compare) and len(p.test.ops) == 1 and norm(p.test.left) == norm(n) and isinstance(p.test.comparators[0], ast.Constant) and p.test.comparators[0].value is None:
+            # `D if v is None else v` / `v if v is not None else D`: the arm that holds v is the one where it is not None
+            if (isinstance(p.test.ops[0], ast.Is) and p.orelse is n) or (isinstance(p.test.ops[0], ast.IsNot) and p.body is n):
+                return True
         if isinstance(p, ast.Compare) and any(isinstance(c, ast.Constant) and c.value is None for c in p.comparators):
             return True
         if isinstance(p, (ast.If, ast.While)) and p.test is n:
@@ -1165,7 +1169,12 @@ def _none_reaches_script(ctx, src: ast.AST, f: Func, none_aware, depth: int) -> 
         if not isinstance(call, ast.Call):
             continue
         fnn = norm(call.func)
-        if id(call) in re_sites:
+        if fnn in ("list", "tuple", "sorted", "reversed", "iter") and arg_index == 0:
+            tainted_exprs.append(call)  # a host container of the same members
+            continue
+        cs0 = ctx.cg.site_of_call.get(id(call))
+        local_callee = cs0 is not None and cs0.kind == "resolved" and cs0.targets and all(t.parent is not None and not isinstance(t.node, ast.Lambda) for t in cs0.targets) and depth < 2
+        if id(call) in re_sites and not local_callee:
             return f"argument of {short(call, 50)} at line {call.lineno}, which can run script code"
         if fnn.endswith("._elements.append") or fnn.endswith("._elements.extend") or fnn.endswith("._elements.insert") or fnn.endswith("stack.append") or (isinstance(call.func, ast.Attribute) and call.func.attr == "set" and arg_index == 1):
             return f"stored by {short(call, 50)} at line {call.lineno}"
